@@ -144,4 +144,41 @@ mod vk_slice {
         else if op == 4 { let _ = it.try_get_len(); let _ = it.has_more(); chk_std_ops(1, 0, len); }
         else { let s = it.into_seq_iter(); chk_std_ops(1, 0, len); std::mem::forget(s); }
     }
+
+    // the `for`-loop adaptors values() / ids_and_values() driven through Iterator methods other than next()
+    // (nth, on which skip / step_by are built): still one source element per yielded item, with its own index
+    // @harness name=slice_wrappers_nth props=C02,C01,C05 kind=bounded bound="slice length <= 4; any counter value; nth(k) with k <= 3, then next() (real atomics, sequential)"
+    #[kani::proof]
+    #[kani::unwind(7)]
+    fn slice_wrappers_nth() {
+        let data: [u8; N] = kani::any();
+        let len: usize = kani::any();
+        kani::assume(len <= N);
+        let slice = &data[..len];
+        let it = ConIterOfSlice::new(slice);
+        let c: usize = kani::any();
+        kani::assume(c <= usize::MAX - 8);
+        it.counter().store(c);
+        let k: usize = kani::any();
+        kani::assume(k <= 3);
+        let which: bool = kani::any();
+        // sequentially, nth(k) is the (k+1)-th pull: position c + k
+        if which {
+            let mut w = it.ids_and_values();
+            let r = w.nth(k);
+            kani::cover!(r.is_some() && k == 2, "nth(2) delivers");
+            match r {
+                Some((i, v)) => { assert!(i == c + k && i < len, "[C02 C01 wrapper-nth-idx] ids_and_values().nth(k) reports the index of the element it yields"); assert!(std::ptr::eq(v, &slice[i]), "[C02 wrapper-nth-value] ... and yields the element found at that index"); }
+                None => assert!(c + k >= len, "[C01 C05 wrapper-nth-none] None only when the position is past the end"),
+            }
+            match w.next() { Some((i, v)) => { assert!(i < len && std::ptr::eq(v, &slice[i]), "[C02 wrapper-next-after-nth] the following item still carries its own index"); } None => {} }
+        } else {
+            let mut w = it.values();
+            let r = w.nth(k);
+            match r {
+                Some(v) => assert!(c + k < len && std::ptr::eq(v, &slice[c + k]), "[C02 C01 wrapper-nth-value] values().nth(k) yields the element at the (k+1)-th next position"),
+                None => assert!(c + k >= len, "[C01 C05 wrapper-nth-none] None only when the position is past the end"),
+            }
+        }
+    }
 }
